@@ -13,7 +13,7 @@ func init() {
 	propFuncs["C17"] = propC17
 	propInfos["C17"] = &PropInfo{
 		Level:   "other",
-		Explain: "Structural necessary conditions decided statically (DESIGN.md §5 C17): Linear.spacingAtLevel — exp=floor(level/2), spacing=ebase^exp (x5 iff level odd and Base==0), slack=(Max-Min)*1e-10, rounding INWARD for ticks (ceil((Min-slack)/s), floor((Max+slack)/s)) and OUTWARD for Nice (floor((Min+slack)/s), ceil((Max-slack)/s)) — the direction of rounding is what 'inside the domain' and 'Nice only expands' rest on; Log.spacingAtLevel likewise with ebase=Base^(2^level) in log space; sibling agreement CountTicks = len(TicksAtLevel) for linearTicker (count formula and Linspace length) and logTicker (count formula and generating loop firstN..lastN step 1 of base^n, reversal/negation loop for negative domains); Ticks' decision lists and major/minor = TicksAtLevel(level)/(level-1) for the level FindLevel returned; Nice writes Min'=firstN*spacing, Max'=lastN*spacing from spacingAtLevel(level,true) and nothing when FindLevel fails; FindLevel's prefix decisions, clamping of the guess, and the two searches as recurrences with their exit values; D-floor on the count conversions with guessLevel the one exemption (its result only feeds FindLevel's guess, whose contract quantifies over all guesses).",
+		Explain: "Structural necessary conditions decided statically (DESIGN.md §5 C17): Linear.spacingAtLevel — exp=floor(level/2), spacing=ebase^exp (x5 iff level odd and Base==0), slack=(Max-Min)*1e-10, rounding INWARD for ticks (ceil((Min-slack)/s), floor((Max+slack)/s)) and OUTWARD for Nice (floor((Min+slack)/s), ceil((Max-slack)/s)) — the direction of rounding is what 'inside the domain' and 'Nice only expands' rest on; Log.spacingAtLevel likewise with ebase=Base^(2^level) in log space; sibling agreement CountTicks = len(TicksAtLevel) for linearTicker (count formula and Linspace length) and logTicker (count formula and generating loop firstN..lastN step 1 of base^n, reversal/negation loop for negative domains); Ticks' decision lists and major/minor = TicksAtLevel(level)/(level-1) for the level FindLevel returned; Nice writes Min'=firstN*spacing, Max'=lastN*spacing from spacingAtLevel(level,true) and nothing when FindLevel fails; FindLevel's prefix decisions, clamping of the guess, and the two searches as recurrences with their exit values; D-floor on the count conversions with guessLevel the one exemption (its result only feeds FindLevel's guess, whose contract quantifies over all guesses). Added after seed round 8 and the mutation sweep (DESIGN §11, §13): Log minor ticks (exactly one append under level<0, appended exactly when min <= tick <= max, Base-1 multiples per decade, decades firstN..lastN of the rounded-out level 0), Log.Nice on negative domains, coverage of the negate-and-reverse loop.",
 		Assume:  []string{"A4 reals"},
 		Undec:   []string{"that the level returned is the lowest feasible one for every monotone ticker (loop invariants not inferred)", "count <= Max, idempotence of Nice, finiteness of Nice's result at extreme levels (the property text notes Linear.Nice can produce NaN when only an overflowing level fits)"},
 	}
